@@ -332,6 +332,11 @@ def rule_match(prog, rep):
         a = [norm(s) for s in ifs[0].body]
         b = [norm(s) for s in ifs[0].orelse]
         okv = a in ([f"values = [{e}.data.get(key, None) for key in self.select_keys]"], [f"values = [{e}.data.get(key) for key in self.select_keys]"]) and b in ([f"values = list({e}.data.values())"], [f"values = {e}.data.values()"])
+    if not ifs:
+        # the same choice written as one conditional expression
+        for n in m.node.body:
+            if isinstance(n, ast.Assign) and norm(n.targets[0]) == "values" and isinstance(n.value, ast.IfExp) and norm(n.value.test) == "self.select_keys":
+                okv = norm(n.value.body) in (f"[{e}.data.get(key, None) for key in self.select_keys]", f"[{e}.data.get(key) for key in self.select_keys]") and norm(n.value.orelse) in (f"list({e}.data.values())", f"{e}.data.values()")
     rep.check(okv, "MATCH", m.short, "candidate values", "data.get(k) for select_keys else all values", "candidate values are not 'selected keys if given, else all values'", m.loc())
     # test: a hit is reported only for a str value in which the regex is found anywhere, and only when a regex exists
     gm = cfg_of(m)
